@@ -401,7 +401,13 @@ class FormatParser(BaseParser):
                     if self.seen_operands[idx]:
                         self.raise_error(f"operand '{variable_name}' is already bound")
                     self.seen_operands[idx] = True
-                    if isinstance(operand_def, VariadicDef | OptionalDef):
+                    # The segment sizes are recomputed from the parsed operands: only
+                    # elide the attribute when the operation really stores them there.
+                    if isinstance(operand_def, VariadicDef | OptionalDef) and any(
+                        isinstance(option, AttrSizedOperandSegments)
+                        and not option.as_property
+                        for option in self.op_def.options
+                    ):
                         self.seen_attributes.add(
                             AttrSizedOperandSegments.attribute_name
                         )
